@@ -49,15 +49,14 @@ def cut3(draw, n, ms):
 
 @st.composite
 def cut4(draw, n, ms):
-    """s < a < b < e, inner >= ms, surroundings >= ms in total."""
-    total_min = 2 * ms + (2 if ms == 1 else 0)  # need a-s>=1 and e-b>=1 and sum>=ms
-    for _ in range(1):
-        s = draw(st.integers(0, n - max(2 * ms, ms + 2)))
-        a = draw(st.integers(s + 1, n - ms - 1))
-        b = draw(st.integers(a + ms, n - 1))
-        need = max(1, ms - (a - s))
-        e = draw(st.integers(min(n, b + need), n))
-        return [s, a, b, e]
+    """s < a < b < e <= n with inner length >= ms and surroundings >= ms in total (by construction)."""
+    lmin = ms + max(ms, 2)
+    L = draw(st.integers(lmin, n))
+    s = draw(st.integers(0, n - L))
+    m = draw(st.integers(ms, L - max(ms, 2)))
+    left = draw(st.integers(1, L - m - 1))
+    a = s + left
+    return [s, a, a + m, s + L]
 
 
 def n_min_for(kind, ms):
@@ -82,9 +81,6 @@ def base_case(draw, tier, kind, costs=COSTS):
         cuts = [draw(cut3(n, ms)) for _ in range(k)]
     elif kind == "local":
         cuts = [draw(cut4(n, ms)) for _ in range(min(k, 4))]
-        cuts = [c for c in cuts if c[3] <= n and (c[1] - c[0]) + (c[3] - c[2]) >= ms and c[2] - c[1] >= ms]
-        if not cuts:
-            cuts = [[0, 1, 1 + ms, max(2 + ms, 1 + 2 * ms)]]
     else:
         cuts = draw(c01.intervals(n, ms, max_batch=8))
     return {"cost": cost, "X": X, "cuts": cuts, "container": draw(st.sampled_from(["ndarray", "DataFrame"]))}
